@@ -339,6 +339,13 @@ func c20Draw(r *fw.Rand, tokBase int) *c20Model {
 		switch r.Intn(12) {
 		case 0:
 			return nil
+		case 1:
+			// the same SEX line twice or three times: several lines (a warning
+			// of its own) but no doubt about the sex
+			if r.Bool() {
+				return []string{def, def}
+			}
+			return []string{def, def, def}
 		default:
 			return []string{def}
 		}
@@ -533,7 +540,7 @@ func init() {
 			return f
 		},
 		Assumptions: []string{
-			"clear-cut data only: +/- 4 days around the year-based thresholds, sibling gaps of 2-3 and 269-279 days, marriages before a spouse's birth and people with several SEX lines acting as spouses are never generated; a date phrase in parentheses counts as unparsable (IsValid() is false for it by definition)",
+			"clear-cut data only: +/- 4 days around the year-based thresholds, sibling gaps of 2-3 and 269-279 days, marriages before a spouse's birth and spouses whose SEX lines contradict each other are never generated (a spouse may carry the same SEX line several times); a date phrase in parentheses counts as unparsable (IsValid() is false for it by definition)",
 			"every child has one BIRT and belongs to one family; age is counted from BIRT (no baptism-only people among spouses)",
 		},
 	})
